@@ -1,0 +1,13 @@
+//go:build verif
+
+package ratelimiting
+
+// VerifHook, when set by a verification harness, is called at the decision
+// points of this package. It is only compiled with the "verif" build tag.
+var VerifHook func(point string, kv ...any)
+
+func verifPoint(point string, kv ...any) {
+	if h := VerifHook; h != nil {
+		h(point, kv...)
+	}
+}
